@@ -215,6 +215,23 @@ def run_site(chk: Check, sc: Scratch, idx: int, nhist: int, histlen: int) -> Non
                         good.append(("good-search:" + view, d2, tls, o, view))
                         search_of[d2] = q
                         good.append(("good:" + view, data, tls, o, view))
+            if full:
+                # with url.URLTypeRewriter configured, a selector may carry a leading item-type component
+                # ('/1/dir', '/0/dir/file'): the same object, any number of times in one process
+                k = 0
+                for o in model.objs:
+                    if b"|" in o.selector or o.selector == b"/" or "exec" in o.tags or "pyg" in o.tags:
+                        continue
+                    k += 1
+                    if k % 3:
+                        continue
+                    typed = (b"/1" if o.kind == "menu" else b"/0") + o.selector
+                    for view in ("gopher", "http", "gemini", "gopherp+"):
+                        if reqs.VIEWS[view][0] in ("gopher", "gopherp") and reqs.gopher_ambiguous(typed):
+                            continue
+                        data, tls = reqs.render(view, typed)
+                        good.append(("good-typed:" + view, data, tls, o, view))
+                        good.append(("good-typed:" + view, data, tls, o, view))
             for gi, (label, data, tls, o, view) in enumerate(good):
                 driver.clean_server_files(root)
                 # every third well-formed request comes from a client that keeps its side of the connection
